@@ -84,9 +84,9 @@ WrongField(dt) ==
       P(CaseOf([code |-> CodeOf(dt), dims |-> <<2>>, enc |-> "typed", field |-> f, raw |-> <<>>,
                 vals |-> [k \in 1..2 |-> [i \in 1..CarrierWidth(f) |-> IF i = 1 THEN k ELSE 0]]], <<dt, "wrong_field", f>>))
 
-\* long payloads (block-wise readers): 520 and 2 x 300 elements, raw and typed, exact and one element short
+\* long payloads (block-wise readers): 520, 2 x 300 and 40003 elements, raw and typed, exact and one element short
 LongCases(dt) ==
-   \A dims \in {<<520>>, <<2, 300>>}, enc \in {"raw", "typed"} :
+   \A dims \in {<<520>>, <<2, 300>>} \cup (IF dt \in {"f32", "i64", "u8"} THEN {<<40003>>} ELSE {}), enc \in {"raw", "typed"} :
       /\ P(CaseOf(Proto(dt, dims, enc, Size(dims), 0, <<>>, 0), <<dt, enc, "long_payload", "exact">>))
       /\ P(CaseOf(Proto(dt, dims, enc, Size(dims) - 1, 0, <<>>, 0), <<dt, enc, "long_payload", "elem_short">>))
 Init == \/ st \in [fam : {"types"}, dt : Types, dims : {s \in Shapes : Len(s) <= MaxRank}, done : {FALSE}]
